@@ -66,10 +66,10 @@ def hist_jobs(prop, tier, map_args, set_args, native=(120_000, 2_500_000), rel=(
 MAP_ROWS = {
     'C01': ['insert:', 'insert_key_value:', 'checked_insert:', 'get_mut:', 'index:', 'index_mut:', 'remove:', 'remove_entry:',
             'retain:', 'clear:', 'drain:'],
-    'C02': ['insert:', 'remove:', 'retain:', 'clear:', 'drain:', 'into_iter:', 'into_keys:', 'into_values:', 'clone:', 'entry.'],
+    'C02': ['insert:', 'remove:', 'retain:', 'clear:', 'drain:', 'into_iter:', 'into_keys:', 'into_values:', 'clone:', 'entry.', 'adaptor:drain:nth', 'adaptor:drain:step_by(2)', 'adaptor:into_iter:take'],
     'C05': ['insert:', 'checked_insert:', 'remove:', 'retain:', 'entry.', 'index:'],
-    'C09': ['iter:', 'iter_mut:', 'keys:', 'values:', 'values_mut:'],
-    'C10': ['drain:', 'into_iter:', 'into_keys:', 'into_values:'],
+    'C09': ['iter:', 'iter_mut:', 'keys:', 'values:', 'values_mut:', 'adaptor:iter:nth', 'adaptor:values_mut:fold', 'adaptor:iter_mut:count', 'adaptor:keys:step_by(2)', 'adaptor:values:last'],
+    'C10': ['drain:', 'into_iter:', 'into_keys:', 'into_values:', 'adaptor:drain:nth', 'adaptor:drain:skip', 'adaptor:into_iter:last', 'adaptor:into_keys:fold', 'adaptor:into_values:step_by(2)'],
     'C12': ['insert:', 'insert_key_value:', 'checked_insert:', 'remove_entry:', 'entry.'],
     'C15': ['clone:', 'drop-copy'],
     'C19': ['fmt:map-debug', 'fmt:map-alt-debug', 'fmt:map-display', 'fmt:Iter:', 'fmt:IterMut', 'fmt:Keys', 'fmt:Values:',
@@ -79,8 +79,8 @@ SET_ROWS = {
     'C07': ['insert:', 'replace:', 'remove:', 'take:', 'retain:', 'clear:', 'drain:', 'extend:'],
     'C02': ['insert:', 'replace:', 'remove:', 'take:', 'retain:', 'clear:', 'drain:', 'into_iter:', 'clone:', 'extend:'],
     'C05': ['insert:', 'replace:', 'remove:', 'retain:', 'extend:'],
-    'C09': ['set-iter:'],
-    'C10': ['drain:', 'into_iter:'],
+    'C09': ['set-iter:', 'adaptor:iter:nth', 'adaptor:iter:fold'],
+    'C10': ['drain:', 'into_iter:', 'adaptor:drain:nth', 'adaptor:into_iter:skip'],
     'C12': ['insert:', 'replace:', 'take:', 'extend:'],
     'C15': ['clone:', 'drop-copy'],
     'C19': ['fmt:set-debug', 'fmt:set-alt-debug', 'fmt:set-display'],
@@ -96,7 +96,7 @@ def rows(prop, engines=('map', 'set')):
     return r
 
 
-HIST_RULE = ('Cases are monitored steps of random operation histories (8..96 steps, workload profiles uniform / fill / '
+HIST_RULE = ('Iterators are consumed by plain next() loops and, in dedicated adaptor steps, through nth / skip / step_by / last / fold / count / for_each / take / by_ref. Cases are monitored steps of random operation histories (8..96 steps, workload profiles uniform / fill / '
              'churn-at-full / drain-down / revisit) started from an empty container, for capacities N in {0,1,2,3,4,8} '
              '(thorough adds 5,16,32) and the element families named in each job; after every step a full observation sweep '
              'compares the real container with the reference model. A case is non-trivial when the pre-state is non-empty or '
@@ -106,12 +106,12 @@ ALLCAPS = '0,1,2,3,4,5,8,16,32'
 
 
 def _c01(tier):
-    a = '--fam track,copy,raw' + (' --caps ' + ALLCAPS if tier == 'thorough' else '')
+    a = '--fam track,copy,raw,zst,nodrop' + (' --caps ' + ALLCAPS if tier == 'thorough' else '')
     return hist_jobs('C01', tier, a, a, engines=('map',), std=True)
 
 
 def _c07(tier):
-    a = '--fam track,copy,raw' + (' --caps ' + ALLCAPS if tier == 'thorough' else '')
+    a = '--fam track,copy,raw,zst,nodrop' + (' --caps ' + ALLCAPS if tier == 'thorough' else '')
     return hist_jobs('C07', tier, a, a, engines=('set',), std=True)
 
 
@@ -161,7 +161,7 @@ plan('C07', jobs=_c07, rule=HIST_RULE, required=rows('C07', ('set',)),
      level_note='Trusted: the reference model, the instrumented element types. Finite sample of histories.',
      design_ref='DESIGN.md section 3, C07')
 
-plan('C02', jobs=lambda t: _mem_hist('C02', t, fam='track,large'), rule=HIST_RULE + ' Consuming iterators and drains are abandoned at every cut point j in 0..=len+1 by drop or mem::forget.',
+plan('C02', jobs=lambda t: _mem_hist('C02', t, fam='track,large,zst'), rule=HIST_RULE + ' Consuming iterators and drains are abandoned at every cut point j in 0..=len+1 by drop or mem::forget.',
      required=rows('C02'), assumptions=NATIVE_ASSUME + SAN_ASSUME,
      title='exactly-once destruction (ownership ledger)',
      technique='runtime monitoring: ownership ledger (conservation + exactly-once monitor over new/clone/drop/use events of instrumented elements) plus Miri, AddressSanitizer and valgrind memcheck on the same workloads',
@@ -169,7 +169,7 @@ plan('C02', jobs=lambda t: _mem_hist('C02', t, fam='track,large'), rule=HIST_RUL
      level_note='Trusted: ledger + instrumented elements; Miri/ASan/valgrind as detectors on executed paths. Miri depth is thousands of steps, native depth millions.',
      design_ref='DESIGN.md section 3, C02')
 
-plan('C05', jobs=lambda t: _simple_hist('C05', t), rule=HIST_RULE + ' The well-formedness oracle uses no model: it only observes len/is_empty/capacity/iter/get.',
+plan('C05', jobs=lambda t: _simple_hist('C05', t, fam='track,copy,zst'), rule=HIST_RULE + ' The well-formedness oracle uses no model: it only observes len/is_empty/capacity/iter/get.',
      required=rows('C05'),
      title='well-formedness after every step',
      technique='runtime monitoring: model-free invariant monitor (keys pairwise unequal, len == iteration count, is_empty, len <= capacity, every yielded key looks up its own value) evaluated at every quiescent point, including after container-raised panics',
@@ -177,7 +177,7 @@ plan('C05', jobs=lambda t: _simple_hist('C05', t), rule=HIST_RULE + ' The well-f
      level_note='Uniqueness is judged with the lawful == of the instrumented keys. Finite sample of histories.',
      design_ref='DESIGN.md section 3, C05')
 
-plan('C09', jobs=lambda t: _simple_hist('C09', t, miri=(150, 1500, False)), rule=HIST_RULE + ' An iterator probe walks one borrowing iterator kind completely, checking len/size_hint/count before every step, a clone at a random step, fusedness, a second traversal and write visibility.',
+plan('C09', jobs=lambda t: _simple_hist('C09', t, fam='track,copy,zst', miri=(150, 1500, False)), rule=HIST_RULE + ' An iterator probe walks one borrowing iterator kind completely, checking len/size_hint/count before every step, a clone at a random step, fusedness, a second traversal and write visibility.',
      required=rows('C09'),
      title='borrowing iterators',
      technique='runtime monitoring: per-step exactness monitor on iter/iter_mut/keys/values/values_mut/Set::iter over states reached by random histories (identity-level comparison through ledger ids)',
@@ -185,7 +185,7 @@ plan('C09', jobs=lambda t: _simple_hist('C09', t, miri=(150, 1500, False)), rule
      level_note='Finite sample of states; iterator kinds enumerated completely.',
      design_ref='DESIGN.md section 3, C09')
 
-plan('C10', jobs=lambda t: _mem_hist('C10', t, miri_steps=(200, 2000), asan=True, vg=True), rule=HIST_RULE + ' Every drain / consuming iterator is cut at a random j in 0..=len+1 and then dropped or forgotten.',
+plan('C10', jobs=lambda t: _mem_hist('C10', t, fam='track,copy,zst', miri_steps=(200, 2000), asan=True, vg=True), rule=HIST_RULE + ' Every drain / consuming iterator is cut at a random j in 0..=len+1 and then dropped or forgotten.',
      required=rows('C10'), assumptions=NATIVE_ASSUME + SAN_ASSUME,
      title='consuming iterators and drain',
      technique='runtime monitoring: identity-level permutation monitor + exact-length monitor on into_iter/into_keys/into_values/drain (Map and Set) cut at every point, ledger for the non-yielded remainder, Miri on the same workload',
@@ -201,7 +201,7 @@ plan('C12', jobs=lambda t: _simple_hist('C12', t, fam='track,large'), rule=HIST_
      level_note='Finite sample of histories; identity observable only for the tracked families.',
      design_ref='DESIGN.md section 3, C12')
 
-plan('C15', jobs=lambda t: _simple_hist('C15', t, fam='track,large', miri=(150, 1500, False)), rule=HIST_RULE + ' A fork step clones the container inside a ledger event window; both copies then continue with independent random suffixes and are swept after every step.',
+plan('C15', jobs=lambda t: _simple_hist('C15', t, fam='track,large,nodrop,copy', miri=(150, 1500, False)), rule=HIST_RULE + ' A fork step clones the container inside a ledger event window; both copies then continue with independent random suffixes and are swept after every step.',
      required=rows('C15'),
      title='clone',
      technique='runtime monitoring: ledger event window around clone() (exactly one Clone event per stored key and value, nothing else), then twin histories with cross-talk sweeps of both copies after every step',
@@ -209,8 +209,17 @@ plan('C15', jobs=lambda t: _simple_hist('C15', t, fam='track,large', miri=(150, 
      level_note='Finite sample of states and suffixes.',
      design_ref='DESIGN.md section 3, C15')
 
-plan('C19', jobs=lambda t: _simple_hist('C19', t, fam='track,copy,raw', miri=(150, 1500, True)), rule=HIST_RULE + ' A formatting probe renders the container or one iterator kind after j consumed items and compares with strings built independently.',
-     required=rows('C19'), assumptions=NATIVE_ASSUME + SAN_ASSUME,
+def _c19(tier):
+    jobs = _simple_hist('C19', tier, fam='track,copy,raw,zst', miri=(150, 1500, True))
+    jobs += [
+        J('C19', 'dbg/algebra', 'dbg', 'eng_algebra', '--universe 4 --no-small', 4, 1, covp='alg/'),
+        J('C19', 'rel/algebra', 'rel', 'eng_algebra', '--universe 4 --no-small', 4, 1, covp='alg/'),
+    ]
+    return jobs
+
+
+plan('C19', jobs=_c19, rule=HIST_RULE + ' A formatting probe renders the container or one iterator kind after j consumed items and compares with strings built independently. The set-algebra engine additionally renders union / intersection / difference / symmetric_difference / difference_ref at the first, middle and last-but-one consumption prefix on all 65 x 65 layout pairs over a 4-class universe.',
+     required=rows('C19') + ['alg/union', 'alg/intersection', 'alg/difference', 'alg/symmetric_difference', 'alg/difference_ref'], floors={'iterator_debug_renderings': 1000}, assumptions=NATIVE_ASSUME + SAN_ASSUME,
      title='Debug / Display',
      technique='runtime monitoring: rendering oracle (expected strings built by hand and by std debug_map/debug_set from the independently observed entry sequence) at every consumption prefix of every iterator kind; Miri for the raw-slot Debug impls',
      level_text='Exploration: Debug (plain and alternate) and Display of Map/Set and the Debug of every iterator/drain kind after every consumption prefix are compared with independently built expectations on states reached by random histories; Miri watches the iterators that re-interpret raw slots.',
